@@ -219,24 +219,24 @@ func (c *Ctx) finish(meta propMeta, verifDir string, start time.Time, seed int, 
 		rules[k] = v
 	}
 	cov := map[string]interface{}{
-		"explanation":         meta.Explanation + " DECLINED (not decided by this check): " + meta.Declined,
-		"obligations":         len(c.Instances),
-		"discharged":          discharged,
-		"evaluations":         len(c.Instances),
-		"distinct_nontrivial": len(distinct),
-		"rule":                "one evaluation = one rule instance (rule, construct) found in /repo's current source by resolving the rule's anchors through go/types + go/ssa; distinct = distinct (rule, construct) pairs; every instance carries an obligation, so all are non-trivial",
-		"samples":             samples,
-		"rules":               rules,
-		"instance_floors":     c.floors,
-		"controls_matched":    c.controls,
-		"packages_loaded":     len(c.P.Pkgs),
-		"module_packages":     len(c.P.ModPkgs),
-		"module_functions":    len(c.P.ModFuncs),
+		"explanation":             meta.Explanation + " DECLINED (not decided by this check): " + meta.Declined,
+		"obligations":             len(c.Instances),
+		"discharged":              discharged,
+		"evaluations":             len(c.Instances),
+		"distinct_nontrivial":     len(distinct),
+		"rule":                    "one evaluation = one rule instance (rule, construct) found in /repo's current source by resolving the rule's anchors through go/types + go/ssa; distinct = distinct (rule, construct) pairs; every instance carries an obligation, so all are non-trivial",
+		"samples":                 samples,
+		"rules":                   rules,
+		"instance_floors":         c.floors,
+		"controls_matched":        c.controls,
+		"packages_loaded":         len(c.P.Pkgs),
+		"module_packages":         len(c.P.ModPkgs),
+		"module_functions":        len(c.P.ModFuncs),
 		"allowlisted_type_errors": c.P.AllowedErr,
 		"known_findings_matched":  knownHits,
-		"exhaustive":          true,
-		"checker_cmd":         "/verif/bin/qedlint -prop " + c.Prop + " -tier " + c.Tier,
-		"trusted_base":        []string{"go/types and go/ssa (x/tools v0.29.0) semantics", "VTA call graph over-approximates interface dispatch", "the rocksdb cgo wrapper's Go-level API (bodies not analysable in this sandbox)", "third-party libraries (raft, memberlist, msgpack, ed25519)"},
+		"exhaustive":              true,
+		"checker_cmd":             "/verif/bin/qedlint -prop " + c.Prop + " -tier " + c.Tier,
+		"trusted_base":            []string{"go/types and go/ssa (x/tools v0.29.0) semantics", "VTA call graph over-approximates interface dispatch", "the rocksdb cgo wrapper's Go-level API (bodies not analysable in this sandbox)", "third-party libraries (raft, memberlist, msgpack, ed25519)"},
 	}
 	for k, v := range c.info {
 		cov[k] = v
